@@ -200,4 +200,48 @@ theorem kw_true_spec : isInteger kwTrue = false ∧ realNumber kwTrue = none ∧
 theorem kw_false_spec : isInteger kwFalse = false ∧ realNumber kwFalse = none ∧ (∀ b ∈ kwFalse, isRegular b = true) := by decide +kernel
 theorem kw_null_spec : isInteger kwNull = false ∧ realNumber kwNull = none ∧ (∀ b ∈ kwNull, isRegular b = true) := by decide +kernel
 
+
+/-! ### the writer's decimal numbers -/
+
+theorem digitsVal_snoc (ds : List UInt8) (d : UInt8) : digitsVal (ds ++ [d]) = digitsVal ds * 10 + (d.toNat - 48) := by
+  simp [digitsVal, List.foldl_append]
+
+theorem ofNat_digit (n : Nat) (h : n < 10) : isDig (digitByte n) = true ∧ (digitByte n).toNat - 48 = n := by
+  have h10 : n = 0 ∨ n = 1 ∨ n = 2 ∨ n = 3 ∨ n = 4 ∨ n = 5 ∨ n = 6 ∨ n = 7 ∨ n = 8 ∨ n = 9 := by omega
+  rcases h10 with rfl | rfl | rfl | rfl | rfl | rfl | rfl | rfl | rfl | rfl <;> decide
+
+theorem natDigitsAux_spec (fuel n : Nat) (acc : List UInt8) (h : n < fuel) :
+    ∃ ds, natDigitsAux fuel n acc = ds ++ acc ∧ ds ≠ [] ∧ Digits ds ∧ digitsVal ds = n := by
+  induction fuel generalizing n acc with
+  | zero => omega
+  | succ f ih =>
+    simp only [natDigitsAux]
+    split
+    · rename_i hlt
+      have := ofNat_digit n hlt
+      refine ⟨[digitByte n], by simp, by simp, ?_, ?_⟩
+      · intro b hb; simp at hb; rw [hb]; exact this.1
+      · simp [digitsVal, this.2]
+    · rename_i hge
+      obtain ⟨ds, h1, h2, h3, h4⟩ := ih (n / 10) (digitByte (n % 10) :: acc) (by omega)
+      have := ofNat_digit (n % 10) (by omega)
+      refine ⟨ds ++ [digitByte (n % 10)], by simp [h1], by simp, ?_, ?_⟩
+      · intro b hb; simp at hb; rcases hb with hb | hb
+        · exact h3 b hb
+        · rw [hb]; exact this.1
+      · rw [digitsVal_snoc, h4, this.2]; omega
+
+theorem fmtNat_spec (n : Nat) : NatTok (fmtNat n) n := by
+  obtain ⟨ds, h1, h2, h3, h4⟩ := natDigitsAux_spec (n + 1) n [] (by omega)
+  simp only [fmtNat, h1, List.append_nil]
+  exact ⟨h2, h3, h4⟩
+
+theorem fmtInt_spec (i : Int) : IntTok (fmtInt i) i := by
+  obtain ⟨hne, hd, hv⟩ := fmtNat_spec i.natAbs
+  refine ⟨fmtNat i.natAbs, hne, hd, ?_⟩
+  unfold fmtInt
+  by_cases h : i < 0
+  · rw [if_pos h]; right; right; refine ⟨rfl, ?_⟩; rw [hv]; omega
+  · rw [if_neg h]; left; refine ⟨rfl, ?_⟩; rw [hv]; omega
+
 end PdfLex
